@@ -77,7 +77,7 @@ pub fn doc_of(c: &Case) -> Option<Doc> {
         let comps: Vec<&[u8]> = n.split(|b| *b == b'/').collect();
         if n.is_empty()
             || n.iter().any(|b| m::is_ws(*b))
-            || comps.iter().any(|c| c.is_empty() || *c == b"." || *c == b"..")
+            || comps.iter().enumerate().any(|(i, c)| c.is_empty() || (*c == b"." && (i > 0 || comps.len() == 1)) || *c == b"..")
             || !m::unambiguous(n)
             || !seen.insert(n.clone())
             || f.checksums.is_empty()
